@@ -434,6 +434,8 @@ pub struct World {
     pub old_addresses_die_after_ns: Option<u64>,
     pub left_at: BTreeMap<SocketAddr, u64>,
     keydbg: BTreeMap<(usize, usize), bool>,
+    /// connections that went from alive to drained while handling a harness-made datagram
+    pub reset_by_injected: Vec<(usize, usize)>,
     /// Retry packets put on the wire so far
     pub retry_seen: u32,
     polled_pending: BTreeSet<(usize, usize)>,
@@ -568,6 +570,7 @@ impl World {
             old_addresses_die_after_ns: None,
             left_at: BTreeMap::new(),
             keydbg: BTreeMap::new(),
+            reset_by_injected: vec![],
             retry_seen: 0,
             polled_pending: BTreeSet::new(),
             pending_wake: false,
@@ -1008,7 +1011,13 @@ impl World {
                     self.mon.before_conn_event(ei, ch.0, &d, conn);
                     let pre_rx = format!("{:?}", conn.c.stats().frame_rx);
                     let pre_authed = conn.c.verif_probe().authed_packets;
+                    let was_drained = conn.c.is_drained();
                     conn.c.handle_event(cev);
+                    if d.forged && d.origin.is_none() && !was_drained && conn.c.is_drained() {
+                        // (a datagram made up by the harness ended this connection on the spot: a
+                        // stateless reset it accepted)
+                        self.reset_by_injected.push((ei, ch.0));
+                    }
                     if !d.forged {
                         let npk = crate::wire::split_types(&d.data).len() as u64;
                         let authed = conn.c.verif_probe().authed_packets - pre_authed;
